@@ -8,13 +8,21 @@ Property theorems about `Model/SusClock.lean`, the transcription of
 `Suspend`; arbitrary nesting and overlap), every timeout `d`, every
 `maximumSuspension`, every positive `timeoutThreshold`, every creation time
 `t0`, and every cancellation (absent, or at any time `≥ t0`, winning or losing
-a tie against a timer expiry at the same instant).
+a tie against a wake-up at the same instant).
 
-`fire P tl cn t0 d = some ⟨instant, reason, dur⟩`: the context created by
-`NewContextWithTimeout(parent, d)` at `t0` is done at `instant` with
-`Err() = DeadlineExceeded` (`timeout`, `capped`) or `Canceled` (`cancelled`)
-and `Value(UnsuspendedDurationKey{}) = dur`.  `NewTimer(d)` runs the same loop
-(`Stop` = cancel), so the instant results cover it too.
+`fireL P g tl cn t0 d dlLate dlPre dv = .done r`: the context created by
+`NewContextWithTimeout(parent, d)` at `t0` is done at `r.instant` with
+`Err() = DeadlineExceeded` (`timeout`, `capped`) or `Canceled` (`cancelled`) and
+`Value(UnsuspendedDurationKey{}) = r.dur`, when the successive base timer
+expiries are handled as the oracle `dv` says: the expiry stamped `T` is handled
+at `T + late ≤ T + g`, on the clock state reached after `pos` calls - i.e. any
+`Suspend`/`Resume`/cancel events may happen between "timer `T` is due" and "its
+value is handled by the goroutine" (the window in which the goroutine waits for
+`c.lock` or is not scheduled).  `r.stamp` is the stamp of the last expiry,
+`(r.pStamp, r.pAt)` stamp and handling instant of the one before.  The deadline
+of the base context is delivered `dlLate` late.  `fire` is the prompt case
+(`g = 0`, nothing late).  `NewTimer(d)` runs the same loop (`Stop` = cancel,
+published value = `r.stamp`), so the results cover it too.
 
 `unsuspended tl a b` is the specification: the number of unit intervals
 `[τ, τ+1) ⊆ [a, b)` that no suspension covers.
@@ -24,62 +32,201 @@ Helper lemmas: `BbRe/Lemmas/SusClock*.lean`.
 namespace BbRe.Properties.C11
 open BbRe.SusClock BbRe.Lemmas.SusClock
 
+/-! ## Termination -/
+
 /-- **Fuel elimination / no infinite postponement.** With a positive threshold the
-re-arm loop always terminates within `maximumSuspension + 2` iterations: the
-context (timer) always completes, whatever the suspensions do. No hypothesis on
-the timeline is needed. -/
-theorem fire_total (P : Params) (tl : List Ev) (cn : Option Cancel) (t0 d : Nat) (hthr : 1 ≤ P.thr) :
-    ∃ r, fire P tl cn t0 d = some r := by
-  unfold fire fuelFor
-  exact loop_total P tl cn _ _ _ hthr _ _ _ (by omega) (by omega)
+re-arm loop never runs out of fuel, however late expiries are handled: at most
+`maximumSuspension + dlLate + 2` iterations. No hypothesis on the timeline or the
+oracle is needed. -/
+theorem fire_total (P : Params) (g : Nat) (tl : List Ev) (cn : Option Cancel) (t0 d dlLate : Nat) (dlPre : Bool)
+    (dv : List Delivery) (hthr : 1 ≤ P.thr) :
+    fireL P g tl cn t0 d dlLate dlPre dv ≠ .outOfFuel := by
+  unfold fireL fuelFor
+  exact loop_total P g tl cn _ _ _ _ hthr _ _ _ _ _ (by omega) (by omega)
+
+/-- The prompt run always completes with a result. -/
+theorem fire_completes (P : Params) (tl : List Ev) (cn : Option Cancel) (t0 d : Nat) (hthr : 1 ≤ P.thr) :
+    ∃ r, fire P tl cn t0 d = .done r :=
+  fire_done P tl cn t0 d hthr
 
 /-- The answer does not depend on the amount of fuel once there is enough. -/
-theorem fuel_irrelevant (P : Params) (tl : List Ev) (cn : Option Cancel) (t0 d : Nat) (r : Result)
-    (h : fire P tl cn t0 d = some r) (k : Nat) :
-    loop P tl cn ((clockAt tl t0).totalNow t0) ((clockAt tl t0).totalNow t0 + d) (t0 + d + P.maxSusp)
-      (fuelFor P + k) t0 d = some r :=
-  loop_fuel_mono P tl cn _ _ _ _ _ _ r h k
+theorem fuel_irrelevant (P : Params) (g : Nat) (tl : List Ev) (cn : Option Cancel) (t0 d dlLate : Nat)
+    (dlPre : Bool) (dv : List Delivery) (r : Result)
+    (h : fireL P g tl cn t0 d dlLate dlPre dv = .done r) (k : Nat) :
+    loop P g tl cn ((clockAt tl t0).totalNow t0) ((clockAt tl t0).totalNow t0 + d)
+      (t0 + d + P.maxSusp + dlLate) dlPre (fuelFor P dlLate + k) t0 d t0 dv = .done r :=
+  loop_fuel_mono P g tl cn _ _ _ _ _ _ _ _ _ _ h (by intro h; cases h) k
+
+/-! ## The guard of `getTotalUnsuspendedWithTime` -/
+
+/-- **late_expiry_charge.** An expiry stamped `T` that is handled at `at_ ≥ T`, after
+exactly `pos` calls of the timeline (some of them possibly later than `T`), is charged
+`getTotalUnsuspendedWithTime(T)` on the current state. That value never under-counts
+the stamp and never over-counts the present,
+`unsuspTo T ≤ value ≤ unsuspTo at_`, and it is exactly the unsuspended time at the stamp
+when no `Suspend` has intervened (count 0 and `unsuspensionStart < T`). (Dropping the
+`now.After(unsuspensionStart)` guard breaks the lower bound: a `Resume` after `T` would
+make `now.Sub(unsuspensionStart)` negative.) -/
+theorem late_expiry_charge {tl : List Ev} (hs : Sorted tl) (hb : Balanced tl) {pos at_ T : Nat}
+    (hv : validPos tl pos at_ = true) (hT : T ≤ at_) :
+    unsuspTo tl T ≤ (stateAt tl pos).totalWithTime T ∧ (stateAt tl pos).totalWithTime T ≤ unsuspTo tl at_ ∧
+    ((stateAt tl pos).cnt = 0 → (stateAt tl pos).us < T → (stateAt tl pos).totalWithTime T = unsuspTo tl T) :=
+  charge_bracket hs hb hv hT
+
+/-! ## Expiries handled late (at most `g` ticks) -/
+
+/-- **wall_bound (late).** The context is done no later than the delivery of the base
+deadline, `t0 + d + maximumSuspension + dlLate`; an expiry is handled within `g` of its stamp. -/
+theorem wall_bound_late {P : Params} {g : Nat} {tl : List Ev} {cn : Option Cancel} {t0 d dlLate : Nat}
+    {dlPre : Bool} {dv : List Delivery} {r : Result}
+    (hs : Sorted tl) (hb : Balanced tl) (hcn : ∀ c, cn = some c → t0 ≤ c.t)
+    (h : fireL P g tl cn t0 d dlLate dlPre dv = .done r) :
+    t0 ≤ r.instant ∧ r.instant ≤ t0 + d + P.maxSusp + dlLate ∧
+      r.stamp ≤ r.instant ∧ r.instant ≤ r.stamp + g := by
+  have ok := fireL_ok hs hb hcn h
+  exact ⟨Nat.le_trans ok.start ok.stampLe, ok.wall, ok.stampLe, ok.late⟩
+
+/-- **reported_duration (late).** A cancelled or capped context reports exactly the
+unsuspended time between creation and completion. A timed-out one reports the value charged
+for its last expiry: at least the unsuspended time up to the stamp, at most the
+unsuspended time up to the completion instant - never more than the command really ran. -/
+theorem reported_duration_late {P : Params} {g : Nat} {tl : List Ev} {cn : Option Cancel} {t0 d dlLate : Nat}
+    {dlPre : Bool} {dv : List Delivery} {r : Result}
+    (hs : Sorted tl) (hb : Balanced tl) (hcn : ∀ c, cn = some c → t0 ≤ c.t)
+    (h : fireL P g tl cn t0 d dlLate dlPre dv = .done r) :
+    unsuspended tl t0 r.stamp ≤ r.dur ∧ r.dur ≤ unsuspended tl t0 r.instant ∧
+      (r.reason ≠ .timeout → r.dur = unsuspended tl t0 r.instant) := by
+  have ok := fireL_ok hs hb hcn h
+  have hsi := Nat.le_trans ok.start ok.stampLe
+  rw [unsuspended_eq tl ok.start, unsuspended_eq tl hsi]
+  have h1 := ok.durUp
+  have h2 := ok.durLo
+  have h3 := unsuspTo_mono tl ok.start
+  refine ⟨by omega, by omega, fun hr => ?_⟩
+  have := ok.durExact hr
+  omega
+
+/-- **fires_after_budget (late).** A timeout is never early, measured at the instant the
+context is really cancelled (`d − thr < unsuspended(t0, instant)`), and at the stamp of
+the expiry that caused it the budget is exceeded by at most the unsuspended time that
+elapsed while the *previous* expiry was waiting to be handled. -/
+theorem fires_after_budget_late {P : Params} {g : Nat} {tl : List Ev} {cn : Option Cancel} {t0 d dlLate : Nat}
+    {dlPre : Bool} {dv : List Delivery} {r : Result}
+    (hs : Sorted tl) (hb : Balanced tl) (hcn : ∀ c, cn = some c → t0 ≤ c.t)
+    (h : fireL P g tl cn t0 d dlLate dlPre dv = .done r) (hr : r.reason = .timeout) :
+    d < unsuspended tl t0 r.instant + P.thr ∧ d < r.dur + P.thr ∧
+      unsuspended tl t0 r.stamp ≤ d + unsuspended tl r.pStamp r.pAt := by
+  have ok := fireL_ok hs hb hcn h
+  have hsi := Nat.le_trans ok.start ok.stampLe
+  rw [unsuspended_eq tl ok.start, unsuspended_eq tl hsi]
+  have h1 := ok.timeout hr
+  have h2 := ok.budgetStamp
+  have h3 := unsuspTo_mono tl ok.start
+  have h4 := ok.durUp
+  omega
+
+/-- **budget (late).** Whatever ends the context, when it ends the command has run at
+most its timeout plus the unsuspended time that elapsed while the last two expiries were
+waiting to be handled (`[pStamp, pAt)` and `[stamp, instant)`); hence at most `d + 2g`.
+The reported duration obeys the same bound. This is the precise sense in which the
+timeout is "never late" when the goroutine is. -/
+theorem budget_late {P : Params} {g : Nat} {tl : List Ev} {cn : Option Cancel} {t0 d dlLate : Nat}
+    {dlPre : Bool} {dv : List Delivery} {r : Result}
+    (hs : Sorted tl) (hb : Balanced tl) (hcn : ∀ c, cn = some c → t0 ≤ c.t)
+    (h : fireL P g tl cn t0 d dlLate dlPre dv = .done r) :
+    unsuspended tl t0 r.instant ≤ d + unsuspended tl r.pStamp r.pAt + unsuspended tl r.stamp r.instant ∧
+      r.dur ≤ d + unsuspended tl r.pStamp r.pAt + unsuspended tl r.stamp r.instant ∧
+      unsuspended tl t0 r.instant ≤ d + 2 * g := by
+  have ok := fireL_ok hs hb hcn h
+  have hsi := Nat.le_trans ok.start ok.stampLe
+  have hsplit := unsuspTo_eq_add tl ok.stampLe
+  have h2 := ok.budgetStamp
+  have h3 := unsuspTo_mono tl ok.start
+  have h4 := ok.durUp
+  have h5 := unsuspended_le tl r.pStamp r.pAt
+  have h6 := unsuspended_le tl r.stamp r.instant
+  have h7 := ok.late
+  have h8 := ok.prevLate
+  have h9 := ok.prevLe
+  rw [unsuspended_eq tl hsi]
+  omega
+
+/-- **not_early (late).** If at `t1` (before the wall bound) at most `d − thr` of unsuspended
+time has run, then no `DeadlineExceeded` has been raised up to and including `t1`, however
+late expiries are handled. -/
+theorem not_early {P : Params} {g : Nat} {tl : List Ev} {cn : Option Cancel} {t0 d dlLate t1 : Nat}
+    {dlPre : Bool} {dv : List Delivery} {r : Result}
+    (hs : Sorted tl) (hb : Balanced tl) (hcn : ∀ c, cn = some c → t0 ≤ c.t)
+    (h : fireL P g tl cn t0 d dlLate dlPre dv = .done r) (hr : r.reason ≠ .cancelled)
+    (h01 : t0 ≤ t1) (hwall : t1 < t0 + d + P.maxSusp) (hbud : unsuspended tl t0 t1 + P.thr ≤ d) :
+    t1 < r.instant := by
+  have ok := fireL_ok hs hb hcn h
+  rw [unsuspended_eq tl h01] at hbud
+  have hm := unsuspTo_mono tl h01
+  cases hreason : r.reason with
+  | cancelled => exact absurd hreason hr
+  | capped => rw [ok.capped hreason]; omega
+  | timeout =>
+    have h1 := ok.timeout hreason
+    have h2 := ok.durUp
+    apply Nat.lt_of_not_le
+    intro hle
+    have := unsuspTo_mono tl hle
+    omega
+
+/-- A cancellation is honoured at its own instant, and a context reported as
+`Canceled` was in fact cancelled then (also with late expiries). -/
+theorem cancel_prompt {P : Params} {g : Nat} {tl : List Ev} {c : Cancel} {t0 d dlLate : Nat}
+    {dlPre : Bool} {dv : List Delivery} {r : Result}
+    (hs : Sorted tl) (hb : Balanced tl) (hc : t0 ≤ c.t)
+    (h : fireL P g tl (some c) t0 d dlLate dlPre dv = .done r) :
+    r.instant ≤ c.t ∧ (r.reason = .cancelled → r.instant = c.t) := by
+  have ok := fireL_ok hs hb (by intro c' hc'; cases hc'; exact hc) h
+  refine ⟨ok.prompt c rfl, fun hr => ?_⟩
+  obtain ⟨c', hc', ht⟩ := ok.cancelled hr
+  cases hc'
+  exact ht.symm
+
+/-! ## Expiries handled when they are due (`fire`) -/
 
 /-- **wall_bound.** The context is done no later than `t0 + d + maximumSuspension`. -/
 theorem wall_bound {P : Params} {tl : List Ev} {cn : Option Cancel} {t0 d : Nat} {r : Result}
     (hs : Sorted tl) (hb : Balanced tl) (hcn : ∀ c, cn = some c → t0 ≤ c.t)
-    (h : fire P tl cn t0 d = some r) :
-    t0 ≤ r.instant ∧ r.instant ≤ t0 + d + P.maxSusp :=
-  ⟨(fire_ok hs hb hcn h).start, (fire_ok hs hb hcn h).wall⟩
+    (h : fire P tl cn t0 d = .done r) :
+    t0 ≤ r.instant ∧ r.instant ≤ t0 + d + P.maxSusp := by
+  have := wall_bound_late hs hb hcn h
+  exact ⟨this.1, by simpa using this.2.1⟩
 
 /-- **reported_duration.** `UnsuspendedDurationKey` is the unsuspended time between
 creation and completion, for every completion reason. -/
 theorem reported_duration {P : Params} {tl : List Ev} {cn : Option Cancel} {t0 d : Nat} {r : Result}
     (hs : Sorted tl) (hb : Balanced tl) (hcn : ∀ c, cn = some c → t0 ≤ c.t)
-    (h : fire P tl cn t0 d = some r) :
+    (h : fire P tl cn t0 d = .done r) :
     r.dur = unsuspended tl t0 r.instant := by
-  have ok := fire_ok hs hb hcn h
-  rw [unsuspended_eq tl ok.start]
-  exact ok.dur
+  have hp := fire_prompt hs hb hcn h
+  have hl := reported_duration_late hs hb hcn h
+  rw [hp.2.1] at hl
+  omega
 
 /-- **fires_after_budget (1).** A timeout happens only when the unsuspended time
 that has run is within one threshold below the timeout, and never above it:
 `d − thr < unsuspended ≤ d`. -/
 theorem fires_after_budget {P : Params} {tl : List Ev} {cn : Option Cancel} {t0 d : Nat} {r : Result}
     (hs : Sorted tl) (hb : Balanced tl) (hcn : ∀ c, cn = some c → t0 ≤ c.t)
-    (h : fire P tl cn t0 d = some r) (hr : r.reason = .timeout) :
+    (h : fire P tl cn t0 d = .done r) (hr : r.reason = .timeout) :
     d < unsuspended tl t0 r.instant + P.thr ∧ unsuspended tl t0 r.instant ≤ d := by
-  have ok := fire_ok hs hb hcn h
-  rw [unsuspended_eq tl ok.start]
-  have h1 := ok.timeout hr
-  have h2 := ok.budget
-  have h3 := unsuspTo_mono tl ok.start
+  have hp := fire_prompt hs hb hcn h
+  have hl := fires_after_budget_late hs hb hcn h hr
+  rw [hp.2.1, hp.2.2] at hl
   omega
 
 /-- The budget is never exceeded, whatever ends the context: at completion at most
 `d` of unsuspended time has run (so the timeout is never late). -/
 theorem budget_never_exceeded {P : Params} {tl : List Ev} {cn : Option Cancel} {t0 d : Nat} {r : Result}
     (hs : Sorted tl) (hb : Balanced tl) (hcn : ∀ c, cn = some c → t0 ≤ c.t)
-    (h : fire P tl cn t0 d = some r) :
+    (h : fire P tl cn t0 d = .done r) :
     unsuspended tl t0 r.instant ≤ d := by
-  have ok := fire_ok hs hb hcn h
-  rw [unsuspended_eq tl ok.start]
-  have h2 := ok.budget
+  have := (budget_late hs hb hcn h).2.2
   omega
 
 /-- **Compensation is complete up to the cap.** The cap ends the context only after at
@@ -89,61 +236,26 @@ is exactly the wall bound). Together with `fires_after_budget`: stall time is ex
 in full, but never more than the configured maximum. -/
 theorem capped_only_after_max_compensation {P : Params} {tl : List Ev} {cn : Option Cancel} {t0 d : Nat}
     {r : Result} (hs : Sorted tl) (hb : Balanced tl) (hcn : ∀ c, cn = some c → t0 ≤ c.t)
-    (h : fire P tl cn t0 d = some r) (hr : r.reason = .capped) :
+    (h : fire P tl cn t0 d = .done r) (hr : r.reason = .capped) :
     r.instant = t0 + d + P.maxSusp ∧ P.maxSusp ≤ (r.instant - t0) - unsuspended tl t0 r.instant := by
-  have ok := fire_ok hs hb hcn h
+  have ok := (fire_prompt hs hb hcn h).1
   have hi := ok.capped hr
-  refine ⟨hi, ?_⟩
-  rw [unsuspended_eq tl ok.start]
-  have h2 := ok.budget
-  have h3 := unsuspTo_mono tl ok.start
-  omega
+  have hb' := budget_never_exceeded hs hb hcn h
+  exact ⟨hi, by omega⟩
 
 /-- **fires_after_budget (2): no infinite postponement.** Without a cancellation the
 context does fire with `DeadlineExceeded`, at the latest at
 `t0 + d + maximumSuspension`; if it is the cap that fired, it fired exactly then. -/
 theorem fires_without_cancel (P : Params) (tl : List Ev) (t0 d : Nat)
     (hs : Sorted tl) (hb : Balanced tl) (hthr : 1 ≤ P.thr) :
-    ∃ r, fire P tl none t0 d = some r ∧ r.reason ≠ .cancelled ∧
+    ∃ r, fire P tl none t0 d = .done r ∧ r.reason ≠ .cancelled ∧
       r.instant ≤ t0 + d + P.maxSusp ∧ (r.reason = .capped → r.instant = t0 + d + P.maxSusp) := by
-  obtain ⟨r, h⟩ := fire_total P tl none t0 d hthr
-  have ok := fire_ok hs hb (by intro c hc; cases hc) h
+  obtain ⟨r, h⟩ := fire_done P tl none t0 d hthr
+  have ok := (fire_prompt hs hb (by intro c hc; cases hc) h).1
   refine ⟨r, h, ?_, ok.wall, ok.capped⟩
   intro hr
   obtain ⟨c, hc, _⟩ := ok.cancelled hr
   cases hc
-
-/-- A cancellation is honoured at its own instant, and a context reported as
-`Canceled` was in fact cancelled then. -/
-theorem cancel_prompt {P : Params} {tl : List Ev} {c : Cancel} {t0 d : Nat} {r : Result}
-    (hs : Sorted tl) (hb : Balanced tl) (hc : t0 ≤ c.t)
-    (h : fire P tl (some c) t0 d = some r) :
-    r.instant ≤ c.t ∧ (r.reason = .cancelled → r.instant = c.t) := by
-  have ok := fire_ok hs hb (by intro c' hc'; cases hc'; exact hc) h
-  refine ⟨ok.prompt c rfl, fun hr => ?_⟩
-  obtain ⟨c', hc', ht⟩ := ok.cancelled hr
-  cases hc'
-  exact ht.symm
-
-/-- **not_early.** If at `t1` (before the wall bound) at most `d − thr` of unsuspended
-time has run, then no `DeadlineExceeded` has been raised up to and including `t1`. -/
-theorem not_early {P : Params} {tl : List Ev} {cn : Option Cancel} {t0 d t1 : Nat} {r : Result}
-    (hs : Sorted tl) (hb : Balanced tl) (hcn : ∀ c, cn = some c → t0 ≤ c.t)
-    (h : fire P tl cn t0 d = some r) (hr : r.reason ≠ .cancelled)
-    (h01 : t0 ≤ t1) (hwall : t1 < t0 + d + P.maxSusp) (hbud : unsuspended tl t0 t1 + P.thr ≤ d) :
-    t1 < r.instant := by
-  have ok := fire_ok hs hb hcn h
-  rw [unsuspended_eq tl h01] at hbud
-  have hm := unsuspTo_mono tl h01
-  cases hreason : r.reason with
-  | cancelled => exact absurd hreason hr
-  | capped => rw [ok.capped hreason]; exact hwall
-  | timeout =>
-    have h1 := ok.timeout hreason
-    apply Nat.lt_of_not_le
-    intro hle
-    have := unsuspTo_mono tl hle
-    omega
 
 /-- **not_early, as the executor uses it.** A command that ends at `t1` (the executor
 then calls the `CancelFunc`) having used at most `d − thr` of unsuspended time, before the
@@ -152,8 +264,9 @@ duration is the unsuspended time the command ran. -/
 theorem finishes_in_budget {P : Params} {tl : List Ev} {t0 d t1 : Nat} {pre : Bool}
     (hs : Sorted tl) (hb : Balanced tl) (hthr : 1 ≤ P.thr)
     (h01 : t0 ≤ t1) (hwall : t1 < t0 + d + P.maxSusp) (hbud : unsuspended tl t0 t1 + P.thr ≤ d) :
-    fire P tl (some ⟨t1, pre⟩) t0 d = some ⟨t1, .cancelled, unsuspended tl t0 t1⟩ := by
-  obtain ⟨r, h⟩ := fire_total P tl (some ⟨t1, pre⟩) t0 d hthr
+    ∃ r, fire P tl (some ⟨t1, pre⟩) t0 d = .done r ∧ r.instant = t1 ∧ r.reason = .cancelled ∧
+      r.dur = unsuspended tl t0 t1 := by
+  obtain ⟨r, h⟩ := fire_done P tl (some ⟨t1, pre⟩) t0 d hthr
   have hcn : ∀ c, some (Cancel.mk t1 pre) = some c → t0 ≤ c.t := by
     intro c hc; cases hc; exact h01
   have hp := cancel_prompt hs hb (c := ⟨t1, pre⟩) h01 h
@@ -166,11 +279,9 @@ theorem finishes_in_budget {P : Params} {tl : List Ev} {t0 d t1 : Nat} {pre : Bo
     omega
   have hinst : r.instant = t1 := hp.2 hreason
   have hdur := reported_duration hs hb hcn h
-  rw [h]
-  cases r
-  simp only at hreason hinst hdur
-  subst hreason hinst hdur
-  rfl
+  exact ⟨r, h, hinst, hreason, by rw [hdur, hinst]⟩
+
+/-! ## The counters -/
 
 /-- **nesting (counter form).** The clock's counters compute the measure of the time
 not covered by any suspension: `getTotalUnsuspendedNow()` at `t` is the number of unit
@@ -208,14 +319,28 @@ example : Sorted tlEx ∧ Balanced tlEx := ⟨rfl, rfl⟩
 example : tlEx.Perm (eventsOf [(12, 20), (15, 30), (40, 41)]) := by decide
 /-- d = 20 at t0 = 10: first expiry at 30 has 18 suspended ticks left, re-arm to 48; at 48 one
 more tick (< thr = 2) is outstanding: timeout at 48 with 19 unsuspended ticks. -/
-example : fire ⟨100, 2⟩ tlEx none 10 20 = some ⟨48, .timeout, 19⟩ := by decide
+example : fire ⟨100, 2⟩ tlEx none 10 20 = .done ⟨48, .timeout, 19, 48, 30, 30⟩ := by decide
 /-- the same context with a cap of 5 ticks is cut at 10 + 20 + 5. -/
-example : fire ⟨5, 2⟩ tlEx none 10 20 = some ⟨35, .capped, 7⟩ := by decide
+example : fire ⟨5, 2⟩ tlEx none 10 20 = .done ⟨35, .capped, 7, 35, 30, 30⟩ := by decide
 /-- a command ending at 45 (16 unsuspended ticks ≤ 20 − 2) is not timed out. -/
-example : fire ⟨100, 2⟩ tlEx (some ⟨45, false⟩) 10 20 = some ⟨45, .cancelled, 16⟩ := by decide
+example : fire ⟨100, 2⟩ tlEx (some ⟨45, false⟩) 10 20 = .done ⟨45, .cancelled, 16, 45, 30, 30⟩ := by decide
 example : unsuspended tlEx 10 45 = 16 ∧ unsuspended tlEx 10 48 = 19 := by decide
 /-- cancel and expiry at the same instant: the flag decides. -/
-example : fire ⟨100, 2⟩ tlEx (some ⟨48, true⟩) 10 20 = some ⟨48, .cancelled, 19⟩ ∧
-    fire ⟨100, 2⟩ tlEx (some ⟨48, false⟩) 10 20 = some ⟨48, .timeout, 19⟩ := by decide
+example : fire ⟨100, 2⟩ tlEx (some ⟨48, true⟩) 10 20 = .done ⟨48, .cancelled, 19, 48, 30, 30⟩ ∧
+    fire ⟨100, 2⟩ tlEx (some ⟨48, false⟩) 10 20 = .done ⟨48, .timeout, 19, 48, 30, 30⟩ := by decide
+
+/-- Late handling, the scenario the `now.After` guard exists for: timeout 10 at t0 = 0; the timer is
+due at 10; a read suspends at 10 and resumes at 15; only then (5 late, after both calls) the
+expiry stamped 10 is handled. It is charged 10 = unsuspended(0,10): timeout at 15, reported 10. -/
+example : fireL ⟨100, 1⟩ 5 [.suspend 10, .resume 15] none 0 10 0 false [⟨5, 2⟩] =
+    .done ⟨15, .timeout, 10, 10, 0, 0⟩ := by decide
+example : validPos [.suspend 10, .resume 15] 2 15 = true ∧ unsuspended [.suspend 10, .resume 15] 0 10 = 10 := by decide
+/-- Late handling where the reported duration exceeds the timeout although the code is right:
+nothing is suspended until 13, the expiry stamped 10 is handled at 15 after `Suspend@13`:
+the command really ran 13 ticks, 13 = d + unsuspended(10,15) is reported (`budget_late` is tight). -/
+example : fireL ⟨100, 1⟩ 5 [.suspend 13, .resume 20] none 0 10 0 false [⟨5, 1⟩] =
+    .done ⟨15, .timeout, 13, 10, 0, 0⟩ ∧ unsuspended [.suspend 13, .resume 20] 10 15 = 3 := by decide
+/-- A position that is not a position of the timeline at the handling instant is rejected. -/
+example : fireL ⟨100, 1⟩ 5 [.suspend 13, .resume 20] none 0 10 0 false [⟨5, 2⟩] = .badOracle := by decide
 
 end BbRe.Properties.C11
